@@ -293,3 +293,7 @@ def run(ctx):
     r4_lock_discipline(ctx)
     r5_atomic_rmw(ctx)
     r6_exclusive_alloc(ctx)
+
+
+from .selftest import for_families as _ff  # noqa: E402
+selftest = _ff(['lock', 'publish'])
